@@ -74,6 +74,28 @@ CLAIMED = {
                   "< 2^10, because that is where a float logarithm could go wrong and no solver theory models it.",
              note="Trusted: z3; the BVX interpreter (self-validated per obligation on random concrete inputs against native "
                   "execution; sat models replayed natively); W = 2(la+lb)+24 bits.", ref="3/C18"),
+ "C03": dict(cat="other", tech="bounded symbolic execution (CrossHair/z3) of the real (de)serialisers with symbolic field contents + split client/server pipeline",
+             text="Every fixed-offset key/token wire format is exercised with SYMBOLIC field contents of exactly the lengths the scheme "
+                  "produces under a grid of configurations whose widths differ from each other, so a wrong split offset cannot hide "
+                  "behind coincidence; the split pipeline gives the server only JSON config + serialized index + serialized token "
+                  "and the client a key reloaded from bytes in a fresh instance, for a solver-chosen present/absent keyword.",
+             note=_PIPE_NOTE + " Pickle-based formats (EDBs, results, DP17/SSE-2 tokens) are exercised on concrete contents only.",
+             ref="3/C03"),
+ "C14": dict(cat="other", tech="bounded symbolic execution (CrossHair/z3) of the real AESxCBC wrapper and PKCS7 helpers relative to an axiomatised AES-CBC",
+             text="Message and key bytes are solver variables at every message length of the bound and declared lengths are unbounded "
+                  "symbolic ints: round trip, exact expansion 16+16*(n//16+1), one fresh os.urandom(16) per Encrypt placed as the "
+                  "ciphertext prefix, the padded message/key/IV handed to the cipher, ValueError exactly on contract violations, and "
+                  "strict PKCS7 unpadding (accepts exactly the valid paddings) - the plumbing that makes wrong-key decryption fail.",
+             note="Assumed: AES-CBC is an ideal cipher (bit patterns outside the claim; 'a different key never returns m' only as "
+                  "plumbing + strict unpadding); cryptography's padding module replaced by a pure-Python PKCS7 object model so that "
+                  "toolkit.symmetric_padding itself runs symbolically.", ref="3/C14"),
+ "C16": dict(cat="other", tech="bounded symbolic execution (CrossHair/z3) against an RFC 5246 reference over a shared lazy random oracle",
+             text="HmacPRF/_tls_p_hash and the variable-length hash wrapper run for real over an oracle standing in for hmac/hashlib; "
+                  "the result is compared with a reference P_hash / counter-mode / XOF written from the RFC over the same oracle for "
+                  "symbolic keys and messages and the whole range of output lengths; plus exact length, determinism, "
+                  "distinct-in => distinct-out and the declared-length contracts with unbounded symbolic declared lengths.",
+             note="Assumed: HMAC and the hashes are deterministic collision-free functions of (algorithm, key, message); their bit "
+                  "patterns are outside the claim (the native replay uses the real ones).", ref="3/C16"),
 }
 
 NOT_APPLICABLE = {
